@@ -53,7 +53,9 @@ def run(tier, replay=None):
     v.coverage.update({"states": v.coverage.get("states", 0) + states, "transitions": v.coverage.get("transitions", 0) + trans,
                        "traces_validated_against_impl": nh, "evaluations": summ["extra"]["events"], "distinct_nontrivial": nh,
                        "samples": summ["samples"][:1]})
+    # the transport's own receive buffers are out of reach of the scripted transport: results kept across further real traffic
+    common.kept_pass(v, tier)
     v.coverage["rule"] = ("every history of <=3 (quick) / <=4 (thorough) actions over {mutate caller data, mutate DeviceList map, call, scribble buffers, mutate a result, re-check, clone} followed by call + re-check, "
-                          "plus 300 / 5000 random histories of length 20, over 3 client configurations and 12 operations; distinct = histories")
-    v.coverage["checker_cmd"] = "tlc Insulation (MC + 3 XF); tlc Trace_Insulation"
+                          "plus 300 / 5000 random histories of length 20, over 3 client configurations and 12 operations; on the real driver (loopback sockets) every reply-bearing operation and discovery over each delivery path, the result kept across 1-4 further exchanges and projected again (KeptResultUnaffected); distinct = histories")
+    v.coverage["checker_cmd"] = "tlc Insulation (MC + 3 XF); tlc Trace_Insulation; tlc Trace_Api (kept results)"
     return v.finish(write_evidence=replay is None)
